@@ -12,12 +12,19 @@
    frames of an exchange once one was dropped"); [run_pinned] is the code as pinned.
 
    Clause (c) of the property -- concurrent use of the public API causes no data race -- is a
-   statement about the Go memory model.  No Gallina model here expresses it and NO theorem
-   below covers it.  Supporting evidence only: the thorough tier runs the multiplex and mex
-   scenarios under the race detector. *)
+   statement about the Go memory model.  No Gallina model here expresses the memory model.
+   What IS proved (section LOCK DISCIPLINE at the end of this file): over the table of every
+   syntactic read / write site of the mutex-protected state of the concurrency core, regenerated
+   from the Go source on every run (Gen/GenLockSites.v, go2v/locksites.go), each write site holds
+   the field's mutex in write mode and each read site at least in read mode, up to an explicit
+   exception list; and, against a small semantics of a readers-writer mutex, a write section
+   excludes every other section.  This is a syntactic lock-set discipline in the style of Eraser,
+   not race freedom in the Go memory model.  Dynamic evidence: both tiers run the multiplex
+   (with cancel frames) and mex scenarios under the race detector in a child process. *)
 From Coq Require Import ZArith List Bool.
 From Verif Require Import Base.Wrap Base.Bytes Gen.GenConsts Gen.GenMex Model.Crc Model.Frag Spec.FragSpec Spec.FragOk
-  Proofs.FragWP Proofs.FragRP Proofs.FragRoundtrip Spec.Demux Model.Mex Proofs.MexP Proofs.MexE2E.
+  Proofs.FragWP Proofs.FragRP Proofs.FragRoundtrip Spec.Demux Model.Mex Proofs.MexP Proofs.MexE2E
+  Spec.LockSpec Model.LockDiscipline Gen.GenLockSites Proofs.LockSitesP.
 Import ListNotations.
 Local Open Scope Z_scope.
 
@@ -220,3 +227,75 @@ Example C04_example_gap_repaired :
     step_obs true s LFwdSend = None /\ s_reader s = RIdle /\
     map f_tag (g_delivered (m_g e)) = [1; 2] /\ m_dropped e = true.
 Proof. exact gap_trace_repaired. Qed.
+
+(* ================================================================== LOCK DISCIPLINE (clause (c))
+
+   [lock_sites] (Gen/GenLockSites.v) is regenerated from the Go source on every run: one row per
+   syntactic read / write site, in the non-test source of package tchannel, of the fields
+   messageExchangeSet.{exchanges, expiredExchanges, shutdown}, Connection.state (stateMut),
+   relayItems.{items, tombs}, PeerList.{peersByHostPort, peerHeap, scoreCalculator},
+   RootPeerList.peersByHostPort, Peer.{inboundConnections, outboundConnections},
+   Channel.mutable.{state, peerInfo, l, idleSweep, conns}, subChannelMap.subchannels, with the mode
+   of the field's mutex held at the site ([lk_effective]: in the function itself, or on every call
+   path into it).  The rules of the lock-set computation are in go2v/locksites.go.
+
+   ESTABLISHED: a syntactic lock-set discipline.  A lock region that is removed, narrowed, or
+   downgraded from Lock to RLock around a write, and a new unlocked access, change a row and break
+   [C04_lock_discipline_generated].
+   NOT ESTABLISHED: data-race freedom in the Go memory model.  Outside the table: fields not
+   listed; values obtained under the lock and used after it is released (a map / slice header or
+   pointer copied out); pointers passed on (`&p.inboundConnections` handed to removeConnection is
+   one row at the call); whether the mutex reached through the same expression is the same mutex
+   instance; the exception list of Model/LockDiscipline.v (8 rows: the constructor NewChannel,
+   a member written once before the goroutine reading it is started, an address-of). *)
+
+(* every site outside the exception list: a write holds the write lock, a read at least the read lock *)
+Theorem C04_lock_discipline_generated : forall s, In s lock_sites -> lk_excepted lk_exceptions s = false ->
+  (lk_kind s = LkWrite -> lk_effective s = LkW) /\
+  (lk_kind s = LkRead -> lk_effective s = LkR \/ lk_effective s = LkW).
+Proof. exact lock_discipline. Qed.
+Print Assumptions C04_lock_discipline_generated.
+
+(* no stale exception: each one matches a row of the current table that does lack the lock *)
+Theorem C04_lock_exceptions_needed : forall e, In e lk_exceptions ->
+  exists s, In s lock_sites /\ lk_matches e s = true /\ lk_sufficient (lk_kind s) (lk_effective s) = false.
+Proof. exact lock_exceptions_needed. Qed.
+Print Assumptions C04_lock_exceptions_needed.
+
+(* the table covers the protected state: every required field was found in the source together with
+   its mutex and has a site that holds it *)
+Theorem C04_lock_fields_covered : forall f, In f lk_required_fields ->
+  In f lock_fields /\
+  exists s, In s lock_sites /\ lk_field s = f /\ lk_sufficient (lk_kind s) (lk_effective s) = true.
+Proof. exact lock_fields_covered. Qed.
+Print Assumptions C04_lock_fields_covered.
+
+(* meaning of the discipline: in every reachable state of any number of threads that bracket an
+   access by acquire / release of one readers-writer mutex in their mode, a thread inside a WRITE
+   section is alone among the threads that took the mutex *)
+Theorem C04_rw_write_section_exclusive : forall s ts, rw_reach s ts ->
+  forall i j m, i <> j -> nth_error ts i = Some (LkW, true) -> nth_error ts j = Some (m, true) -> m = LkNone.
+Proof. exact rw_exclusion. Qed.
+Print Assumptions C04_rw_write_section_exclusive.
+
+(* ... so two non-excepted sites of the generated table, one of them a write, are never occupied together *)
+Theorem C04_lock_sites_exclusive : forall s1 s2, In s1 lock_sites -> In s2 lock_sites ->
+  lk_excepted lk_exceptions s1 = false -> lk_excepted lk_exceptions s2 = false ->
+  lk_kind s1 = LkWrite ->
+  forall st ts, rw_reach st ts ->
+  forall i j, i <> j -> nth_error ts i = Some (lk_effective s1, true) -> nth_error ts j = Some (lk_effective s2, true) -> False.
+Proof. exact lock_sites_exclusive. Qed.
+Print Assumptions C04_lock_sites_exclusive.
+
+(* non-vacuity: the semantics lets a reader in and out and then a writer in *)
+Example C04_example_rw : rw_reach (mkRw 0 true) [(LkR, false); (LkW, true)].
+Proof. exact rw_example. Qed.
+(* non-vacuity: the table contains the cancel lookup and the removal it must not race with *)
+Example C04_example_lock_sites :
+  existsb (fun s => lz_eqb (lk_field s) lkn_exchanges &&
+                    lz_eqb (lk_fn s) lkn_handleCancel &&
+                    lk_acc_eqb (lk_kind s) LkRead) lock_sites = true /\
+  existsb (fun s => lz_eqb (lk_field s) lkn_exchanges &&
+                    lz_eqb (lk_fn s) lkn_deleteExchange &&
+                    lk_acc_eqb (lk_kind s) LkWrite) lock_sites = true.
+Proof. exact lock_sites_example. Qed.
